@@ -18,6 +18,7 @@ SITES = [
     ("xattr-match:value", ["-xattr-match n '", "'"]), ("xattr-match:value-pattern", ["-xattr-match n '*", "'"]),
     ("format-literal", ["-printf 'a", "\\n'"]), ("format-literal-file", ["-fprintf out 'a", "'"]),
     ("strftime-selector", ["-printf '%A", "\\n'"]), ("xattr-directive", ["-printf '%{xattr:", "}\\n'"]),
+    ("format-escape", ["-printf 'a\\", "b\\n'"]),
 ]
 
 
@@ -33,8 +34,18 @@ def run(ctx, rep, tier):
                 continue
             us = [sym_char() for _ in range(k)]
             spec = [pre] + us + [post]
-            r = B.parse(spec, extra_assume=[u != 39 for u in us])
-            bad_total, reach = False, False
+            extra = [u != 39 for u in us]
+            meant_char = None
+            if site == "format-escape":
+                # three octal digits: the character the user means is the one with that code
+                if k != 1:
+                    continue
+                us = [sym_char() for _ in range(3)]
+                spec = [pre] + us + [post]
+                extra = [z3.And(z3.UGE(u, 48), z3.ULE(u, 55)) for u in us]
+                meant_char = (us[0] - 48) * 64 + (us[1] - 48) * 8 + (us[2] - 48)
+            r = B.parse(spec, extra_assume=extra)
+            bad_total, beyond_total, reach = False, False, False
             witness_info = None
             n_prog = 0
             for g, v in r.alts:
@@ -52,7 +63,12 @@ def run(ctx, rep, tier):
                             g_all = b_and(gg, g2, g3)
                             items = render(B, cr, ce)
                             n_prog += 1
-                            a = analyze(items, us)
+                            if meant_char is not None:
+                                # the emitted character terms are whatever symbolic items the template holds
+                                emitted = [it for it in items if is_sym(it)]
+                                a = analyze(items, emitted, {t.get_id(): meant_char for t in emitted})
+                            else:
+                                a = analyze(items, us)
                             reach = b_or(reach, g_all)
                             if a["error"]:
                                 bad_total = b_or(bad_total, g_all)
@@ -65,6 +81,7 @@ def run(ctx, rep, tier):
                                     bad_total = b_or(bad_total, g_all)
                                     witness_info = "user characters do not reach any string literal"
                                 bad_total = b_or(bad_total, b_and(g_all, a["bad"]))
+                                beyond_total = b_or(beyond_total, b_and(g_all, a["bad_beyond"]))
             tag = "%s:k%d" % (site, k)
             res0, _ = B.solve(tag + ":reach", r.assume, reach)
             if res0 != z3.sat:
@@ -74,6 +91,11 @@ def run(ctx, rep, tier):
             if res == z3.sat:
                 text = model_string(m, spec)
                 confirm(B, rep, known, site, text, us, m, spec)
+            # beyond plain missing escaping: a character that is not itself special must never be read as syntax
+            res2, m2 = B.solve(tag + ":no-new-special-characters", r.assume, beyond_total)
+            if res2 == z3.sat:
+                text = model_string(m2, spec)
+                confirm(B, rep, set(), site + ":derived", text, us, m2, spec)
             if len(samples) < 10:
                 samples.append(dict(site=site, k=k, input_shape=show_spec(spec), programs=n_prog, verdict=str(res)))
     cov = B.coverage_common()
@@ -107,7 +129,7 @@ def confirm(B, rep, known, site, text, us, m, spec):
     if not differs:
         rep.inconclusive.append("witness %r for site %s does not change how the native program reads" % (text, site))
         return
-    klass = "unescaped:" + site.split(":")[0]
+    klass = ("special-character-created:" if site.endswith(":derived") else "unescaped:") + site.split(":")[0]
     what = "user text is interpolated without escaping at site %s: %r gives a program that reads differently (%s)" % (
         site, text, s1[1] if s1 and s1[0] == "unreadable" else "structure changes" if not tilde else "~ becomes a format directive")
     if klass in known:
